@@ -484,6 +484,21 @@ func run(e *core.Env) {
 					w.fail("not-added-but-changed", "AddRoute reported not added (err=%v) but the table changed: %s", err, w.afterOp)
 				}
 				e.Probe("not_added")
+				// The route of a direct peer is not subject to any bound ("peers never evicted",
+				// and the link registry relies on it: a link is only ever registered together
+				// with its peer route). If the table refuses one, no peer route to that router may
+				// be missing afterwards.
+				if peer && err == nil {
+					have := false
+					for i := range after {
+						if after[i].Source == m.RouteSourcePeer && after[i].DstIP == entry.DstIP {
+							have = true
+						}
+					}
+					if !have {
+						w.fail("peer-route-refused", "AddRoute refused the direct-peer route to %s (added=false, no error) and the table holds no peer route to it: %s", entry.DstIP, w.afterOp)
+					}
+				}
 			}
 			w.checkPeersPresent(after, nil)
 			w.checkAlways(after)
